@@ -709,7 +709,7 @@ package impl
 //@   requires forall k int :: 0 <= k && k < len(args) ==> args[k] != nil
 //@   ensures len(input) == 0 && len(args) <= 1 ==> err == nil && len(res) == 0
 //@   ensures len(input) == 1 && len(args) <= 1 ==> err == nil && collTV(res) == ite(toE(7, input, args) == nil && len(toS(7, input, args)) > 0, TV_T, TV_F)
-//@   assigns nothing
+//@   assigns ctx.LastResult, ctx.BeforeLastResult
 //
 //
 // ---- C04: the clock functions are functions of the context's one instant --------------------
